@@ -79,6 +79,21 @@ def parseOp (toks : List String) : Option (FsOp × Bool) :=
 def fileSummary (f : FileRec) : String :=
   s!"{Hex.toHex f.path}:{if f.isDir then 1 else 0}:{f.owned.length}:{f.eof}"
 
+def summary (v : Vol) : String :=
+  match v.check with
+  | .error e => s!"bad {e}"
+  | .ok _ =>
+    let fl := if v.files.isEmpty then "-" else ",".intercalate (v.files.map fileSummary)
+    s!"ok free={v.free} noleak={if v.noLeak then 1 else 0} files={fl}"
+
+def readAnswer (st : St) : St × String :=
+  match readVol st with
+  | .error e => (st, s!"bad {e}")
+  | .ok v =>
+    let st' := if st.sysBase.isNone && (st.fsid == "dos33" || st.fsid == "dos32") then
+        { st with sysBase := some (v.sys) } else st
+    ({ st' with prev := some v }, summary v)
+
 def handle (st : St) (toks : List String) : St × String :=
   match toks with
   | "open" :: fsid :: ul :: cnt :: rest =>
@@ -96,28 +111,22 @@ def handle (st : St) (toks : List String) : St × String :=
     | some raw => ({ st with raw := raw }, "ok")
     | none => (st, "bad-request")
   | ["read"] =>
-    match readVol st with
-    | .error e => (st, s!"bad {e}")
-    | .ok v =>
-      match v.check with
-      | .error e => (st, s!"bad {e}")
-      | .ok _ =>
-        let fl := if v.files.isEmpty then "-" else ",".intercalate (v.files.map fileSummary)
-        let st' := if st.sysBase.isNone && (st.fsid == "dos33" || st.fsid == "dos32") then
-            { st with sysBase := some (v.sys) } else st
-        ({ st' with prev := some v }, s!"ok free={v.free} noleak={if v.noLeak then 1 else 0} files={fl}")
+    let (st', a) := readAnswer st
+    (st', a)
   | "step" :: rest =>
-    -- refinement check of one real transition: previous reading --op/res--> current reading
+    -- refinement check of one real transition: previous reading --op/res--> current reading;
+    -- the answer carries the verdict and, after ` ;; `, the reading itself (as for `read`)
     match parseOp rest, st.prev with
     | none, _ => (st, "bad-request")
     | _, none => (st, "bad no-previous-reading")
     | some (op, ok), some pre =>
       match readVol st with
-      | .error e => (st, s!"bad unreadable:{e}")
+      | .error e => (st, s!"bad unreadable:{e} ;; bad {e}")
       | .ok post =>
-        match stepWhy (fsParams st.fsid) pre op ok post with
-        | some why => ({ st with prev := some post }, s!"bad {why}")
-        | none => ({ st with prev := some post }, "ok")
+        let verdict := match stepWhy (fsParams st.fsid) pre op ok post with
+          | some why => s!"bad {why}"
+          | none => "ok"
+        ({ st with prev := some post }, s!"{verdict} ;; {summary post}")
   | _ => (st, "bad-request")
 
 end A2Verif.Drv.Fs
